@@ -13,6 +13,9 @@ claimed = {
  "C18": ("template extraction for AppCall in both converters: argument-hole quoting (data-dependent choices detected in the template domain), pipe separator and list order, capture line shape and $? adjacency on the emission sequence; SSA check of the driver's stage list construction",
          "Necessary structural conditions: each argument an unconditionally quoted word, stages joined by | in source order, one command substitution into a fresh helper, $? read in the directly following line, result triple order. What the programs receive at run time is not decided.",
          "Trusts the scanners/extractor; Batch capture helper only judged for argument/pipe clauses.", "§3 C18"),
+ "C16": ("template extraction for both converters + Bash/Batch lexical scanners: lexical closure per line; simulation of the Converter bracket protocol units over per-method block-keyword / parenthesis effects; Batch label definition/reference families with stack contents resolved; helper flag ⇔ invocation implications over converter field effects",
+         "Decides well-formedness for all programs at template + protocol level (holes assumed free of quote/paren characters): closed lines, balanced protocol units with matching closers, every referenced label family defined and no definition numbered by stack depth, helpers emitted iff an invocation can be emitted. bash -n is not run; that the driver follows the protocol is C04's rule.",
+         "Trusts the scanners and the bracket-protocol table (Converter interface contract); data-dependent breakage is C08.", "§3 C16"),
 }
 na_reason = {
  "C15": "value-level agreement of a TypeShell library executed by a shell with Go's strings package over all arguments; no clause of it is visible in the shape of the Go sources or of std/strings.tsh; static analysis (this task's technique family) cannot address it",
